@@ -353,7 +353,7 @@ _MKSEQ_RULE = ("random walks shaped like the search's tree walk (make / null mov
                "pseudo-legal-but-illegal moves made and undone at once) from G1 play-out, G2 sparse and G4 mutated positions; "
                "distinct by start position and operation list")
 
-reg(Prop("C03", "Undoing a move restores the position exactly", "Properties/C03.v",
+reg(Prop("C03", "Undoing a move restores the position exactly", ["Properties/C03.v", "Properties/C03_closed.v"],
          [StreamCfg("mk", 12000, 300000,
                     rule="G1/G2/G4 positions x generated (pseudo-legal, legal or not) moves and the null move; snapshot after make, "
                          "token, snapshot after undo; distinct by position and move"),
@@ -363,7 +363,7 @@ reg(Prop("C03", "Undoing a move restores the position exactly", "Properties/C03.
                       "applicable b m (explicit executable predicate, implied by IsPseudoLegal / membership in the generated moves on valid positions)"],
          design_ref="5/C03"))
 
-reg(Prop("C04", "Incremental hash and redundant board representations never drift", "Properties/C04.v",
+reg(Prop("C04", "Incremental hash and redundant board representations never drift", ["Properties/C04.v", "Properties/C04_closed.v"],
          [StreamCfg("mkseq", 2500, 60000, judge="judge_c04", rule=_MKSEQ_RULE),
           StreamCfg("mktp", 1500, 40000, judge="judge_c04tp",
                     rule="transposition pairs a b c d / c b a d and a b c d / a d c b of legal moves from G1/G2/G4 positions, both orders legal; "
@@ -390,7 +390,7 @@ reg(Prop("C15", "Transposition table returns only what was stored for that key",
          assumptions=["stores inside the property's domain: depth 0..63, ply 0..63, bound type 0..2, |score| <= 32000 (int16 no-wrap), table of 1..2^31 buckets",
                       "keys whose 16 signature bits are zero are excluded from the no-phantom and frame clauses (read-your-write is proved for them too)"],
          design_ref="5/C15"))
-reg(Prop("C16", "Move picker yields every pseudo-legal move exactly once, hash move first", "Properties/C16.v",
+reg(Prop("C16", "Move picker yields every pseudo-legal move exactly once, hash move first", ["Properties/C16.v", "Properties/C16_closed.v"],
          [StreamCfg("c16p", 2500, 60000, judge="judge_c16p",
                     rule="random legal play-outs (0..59 plies) from the start position and the 126 roots of debug/standard.epd; "
                          "hash move in {none, generated moves (all of them on the first roots), random 15 bit encodings, own piece to a "
@@ -596,6 +596,8 @@ SEARCH_MODEL_TRUSTED = [
 
 reg(Prop("C06", "Search returns a legal move unless the game is over; board left untouched",
          ["Properties/C06.v", "Properties/C06_skel.v", "Properties/C06_model.v"],
+
+         ["Properties/C06.v", "Properties/C06_skel.v", "Properties/C06_closed.v"],
          [StreamCfg("c06", 20000, 150000, judge="judge_c06", model=False,
                     rule="40 fixed roots (in check, single reply, promotion, en passant, clocks 97..101, 2nd/3rd/4th occurrence "
                          "through histories, mate, stalemate, 16 queens) x {every hard node budget k in 0..300 (quick) / 0..2000+ "
@@ -711,7 +713,7 @@ def _c10_extra(prop, res, workdir):
         "empty: root (hash with en-passant file) vs. a shuffle returning to the same position (hash without)")
 
 
-reg(Prop("C10", "Repetition count equals true recurrences of the position in the game", "Properties/C10.v",
+reg(Prop("C10", "Repetition count equals true recurrences of the position in the game", ["Properties/C10.v", "Properties/C10_closed.v"],
          [StreamCfg("c10", int(os.environ.get("VERIF_C10_N", "63")), 8000, judge="judge_c10",
                     rule="game histories of up to 400 plies (scripted knight/king/rook oscillations incl. castling rights "
                          "lost inside a cycle and en-passant rights that arise and lapse, capturable and pinned; random "
@@ -773,7 +775,7 @@ reg(Prop("C17", "Static evaluation is colour-symmetric and depends only on the p
          assumptions=["board words < 2^64, exactly one king per side, knights and bishops belong to a colour (fragment of the representation invariant; part of `valid`)"],
          design_ref="5/C17"))
 
-reg(Prop("C05", "Pseudo-legality test accepts exactly the moves the generator emits", "Properties/C05.v",
+reg(Prop("C05", "Pseudo-legality test accepts exactly the moves the generator emits", ["Properties/C05.v", "Properties/C05_closed.v"],
          [StreamCfg("c05", 1000, 50000, judge="judge_c05",
                     rule="per position ALL 32768 encodings through Board.IsPseudoLegal and the output of GenNoisy+GenNotNoisy "
                          "(model: Model/Movegen.v; judge: accepted set = generated set on valid positions); 59 hand roots "
@@ -905,7 +907,7 @@ reg(Prop("C19", "The tuner optimises the same evaluation the engine plays with",
                       "no int16 overflow in the integer evaluation (hypothesis no_wrap of the partial theorem, evaluated on every case of stream c19z)"],
          extra=c19_extra, design_ref="5/C19"))
 
-reg(Prop("C09", "Fast checkmate and stalemate tests agree with the absence of legal moves", "Properties/C09.v",
+reg(Prop("C09", "Fast checkmate and stalemate tests agree with the absence of legal moves", ["Properties/C09.v", "Properties/C09_closed.v"],
          [StreamCfg("c09", 12000, 800000, judge="judge_c09",
                     rule="hand-constructed hard cases (smothered/back-rank mates, pinned interposers, en-passant capture of a "
                          "checking pawn, double-push blocks, x-ray through the king, stalemates with pinned men, stalemate broken "
@@ -929,7 +931,7 @@ reg(Prop("C09", "Fast checkmate and stalemate tests agree with the absence of le
          design_ref="5/C09"))
 
 
-reg(Prop("C02", "Playing a move produces the successor position the rules prescribe", "Properties/C02.v",
+reg(Prop("C02", "Playing a move produces the successor position the rules prescribe", ["Properties/C02.v", "Properties/C02_closed.v"],
          [StreamCfg("c02", 60000, 1200000, judge="judge_c02",
                     rule="fixed en-passant / clock witnesses (F2, F5 and relatives); 25 % dedicated en-passant generator "
                          "(double push next to enemy pawns with the enemy king and an own slider lined up through the "
